@@ -2,7 +2,7 @@
 # confirmseed.sh <seed-dir> [pkgdir]: in a scratch worktree, confirm that the seeded change compiles, that its
 # demonstration fails with the change and passes without it, and that the existing suite passes with it.
 set -u
-SEED="$1"; PKG="${2:-.}"
+SEED="$1"; PKG="${2:-.}"; RACE="${3:-}"   # third argument "-race": run the demonstration under the race detector
 ID=$(basename "$SEED")
 WT=/tmp/cs_$ID
 git -C /repo worktree remove --force "$WT" 2>/dev/null
@@ -13,12 +13,12 @@ demo=$(ls "$SEED"/zz_seed_demo_test.go)
 res="$SEED/confirm.log"; : > "$res"
 cp "$demo" "$WT/$PKG/zz_seed_demo_test.go"
 echo "== demo without the change (expect ok)" >> "$res"
-env -u GOFLAGS go test -mod=mod -vet=off -count=1 -timeout 60m -run 'Seed|ZZ' "./$PKG" 2>&1 | grep -v '^20[0-9][0-9]/' | tail -5 >> "$res"
+env -u GOFLAGS go test -mod=mod -vet=off $RACE -count=1 -timeout 60m -run 'Seed|ZZ' "./$PKG" 2>&1 | grep -v '^20[0-9][0-9]/' | tail -5 >> "$res"
 git apply "$SEED/patch.diff" || { echo "patch failed" >> "$res"; exit 2; }
 echo "== build with the change" >> "$res"
 go build ./... >> "$res" 2>&1 && echo "build ok" >> "$res"
 echo "== demo with the change (expect FAIL)" >> "$res"
-env -u GOFLAGS go test -mod=mod -vet=off -count=1 -timeout 60m -run 'Seed|ZZ' "./$PKG" 2>&1 | grep -v '^20[0-9][0-9]/' | tail -8 >> "$res"
+env -u GOFLAGS go test -mod=mod -vet=off $RACE -count=1 -timeout 60m -run 'Seed|ZZ' "./$PKG" 2>&1 | grep -v '^20[0-9][0-9]/' | tail -8 >> "$res"
 rm -f "$WT/$PKG/zz_seed_demo_test.go"
 echo "== existing suite with the change (expect ok)" >> "$res"
 env -u GOFLAGS go test -mod=mod -vet=off -count=1 -timeout 90m ./... 2>&1 | grep '^ok\|^FAIL\|^--- FAIL\|^panic' >> "$res"
